@@ -27,6 +27,7 @@
 #include <qb/qblist.h>
 #include <qb/qbutil.h>
 #include "log_int.h"
+#include "verif_hook.h"
 
 static int wthread_active = QB_FALSE;
 
@@ -66,6 +67,7 @@ qb_logt_worker_thread(void *data)
 	sem_post(&logt_thread_start);
 	for (;;) {
 retry_sem_wait:
+		QB_VERIF_POINT(QB_VP_LOGT_W_WAIT, &logt_print_finished, 0, 0);
 		res = sem_wait(&logt_print_finished);
 		if (res == -1 && errno == EINTR) {
 			goto retry_sem_wait;
@@ -74,17 +76,21 @@ retry_sem_wait:
 			pthread_exit(NULL);
 		}
 
+		QB_VERIF_POINT(QB_VP_LOGT_W_WOKEN, &logt_print_finished, 0, 0);
 		(void)qb_thread_lock(logt_wthread_lock);
+		QB_VERIF_POINT(QB_VP_LOGT_W_LOCKED, logt_wthread_lock, wthread_should_exit, 0);
 		if (wthread_should_exit) {
 			int value = -1;
 
 			(void)sem_getvalue(&logt_print_finished, &value);
 			if (value == 0) {
+				QB_VERIF_POINT(QB_VP_LOGT_W_EXIT, logt_wthread_lock, wthread_should_exit, value);
 				(void)qb_thread_unlock(logt_wthread_lock);
 				pthread_exit(NULL);
 			}
 		}
 
+		QB_VERIF_POINT(QB_VP_LOGT_W_DEQUEUE, &logt_print_finished_records, logt_memory_used, logt_dropped_messages);
 		rec =
 		    qb_list_first_entry(&logt_print_finished_records,
 				  struct qb_log_record, list);
@@ -97,8 +103,10 @@ retry_sem_wait:
 			printf("%d messages lost\n", dropped);
 		}
 
+		QB_VERIF_POINT(QB_VP_LOGT_W_WRITE, &logt_memory_used, logt_memory_used, dropped);
 		qb_log_thread_log_write(rec->cs, &rec->timestamp, rec->buffer);
 
+		QB_VERIF_POINT(QB_VP_LOGT_W_UNLOCK, logt_wthread_lock, 0, 0);
 		(void)qb_thread_unlock(logt_wthread_lock);
 		free(rec->buffer);
 		free(rec);
@@ -164,6 +172,7 @@ qb_log_thread_start(void)
 		(void)qb_thread_lock_destroy(logt_wthread_lock);
 		return -res;
 	}
+	QB_VERIF_POINT(QB_VP_LOGT_T_CREATED, logt_wthread_lock, 0, 0);
 	sem_wait(&logt_thread_start);
 
 	if (logt_sched_param_queued) {
@@ -202,7 +211,9 @@ void
 qb_log_thread_pause(struct qb_log_target *t)
 {
 	if (t->threaded) {
+		QB_VERIF_POINT(QB_VP_LOGT_C_PAUSE, logt_wthread_lock, t->pos, 0);
 		(void)qb_thread_lock(logt_wthread_lock);
+		QB_VERIF_POINT(QB_VP_LOGT_C_PAUSED, logt_wthread_lock, t->pos, 0);
 	}
 }
 
@@ -210,6 +221,7 @@ void
 qb_log_thread_resume(struct qb_log_target *t)
 {
 	if (t->threaded) {
+		QB_VERIF_POINT(QB_VP_LOGT_C_RESUME, logt_wthread_lock, t->pos, 0);
 		(void)qb_thread_unlock(logt_wthread_lock);
 	}
 }
@@ -240,22 +252,30 @@ qb_log_thread_log_post(struct qb_log_callsite *cs,
 	memcpy(&rec->timestamp, timestamp, sizeof(struct timespec));
 
 	qb_list_init(&rec->list);
+	QB_VERIF_POINT(QB_VP_LOGT_P_LOCK, logt_wthread_lock, total_size, 0);
 	(void)qb_thread_lock(logt_wthread_lock);
+	QB_VERIF_POINT(QB_VP_LOGT_P_LOCKED, &logt_memory_used, total_size, logt_dropped_messages);
 	logt_memory_used += total_size;
 	if (logt_memory_used > 512000) {
+		QB_VERIF_POINT(QB_VP_LOGT_P_DROP, &logt_memory_used, logt_memory_used, logt_dropped_messages);
 		free(rec->buffer);
 		free(rec);
 		logt_memory_used = logt_memory_used - total_size;
 		logt_dropped_messages += 1;
+		QB_VERIF_POINT(QB_VP_LOGT_P_UNLOCK_DROP, logt_wthread_lock, logt_memory_used, logt_dropped_messages);
 		(void)qb_thread_unlock(logt_wthread_lock);
 		return;
 
 	} else {
+		QB_VERIF_POINT(QB_VP_LOGT_P_APPEND, &logt_print_finished_records, logt_memory_used, 0);
 		qb_list_add_tail(&rec->list, &logt_print_finished_records);
 	}
+	QB_VERIF_POINT(QB_VP_LOGT_P_UNLOCK, logt_wthread_lock, logt_memory_used, 0);
 	(void)qb_thread_unlock(logt_wthread_lock);
 
+	QB_VERIF_POINT(QB_VP_LOGT_P_POST, &logt_print_finished, 0, 0);
 	sem_post(&logt_print_finished);
+	QB_VERIF_POINT(QB_VP_LOGT_P_POSTED, &logt_print_finished, 0, 0);
 	return;
 
 free_record:
@@ -296,11 +316,18 @@ qb_log_thread_stop(void)
 			free(rec);
 		}
 	} else {
+		QB_VERIF_POINT(QB_VP_LOGT_S_LOCK, logt_wthread_lock, 0, 0);
 		(void)qb_thread_lock(logt_wthread_lock);
+		QB_VERIF_POINT(QB_VP_LOGT_S_LOCKED, logt_wthread_lock, 0, 0);
 		wthread_should_exit = QB_TRUE;
+		QB_VERIF_POINT(QB_VP_LOGT_S_UNLOCK, logt_wthread_lock, 0, 0);
 		(void)qb_thread_unlock(logt_wthread_lock);
+		QB_VERIF_POINT(QB_VP_LOGT_S_POST, &logt_print_finished, 0, 0);
 		sem_post(&logt_print_finished);
+		QB_VERIF_POINT(QB_VP_LOGT_S_POSTED, &logt_print_finished, 0, 0);
+		QB_VERIF_POINT(QB_VP_LOGT_S_JOIN, NULL, 0, 0);
 		pthread_join(logt_thread_id, NULL);
+		QB_VERIF_POINT(QB_VP_LOGT_S_JOINED, logt_wthread_lock, 0, 0);
 	}
 	(void)qb_thread_lock_destroy(logt_wthread_lock);
 	sem_destroy(&logt_print_finished);
